@@ -18,7 +18,8 @@ RULE = ("kinds mat.histeq (exact tier) / mat.hist (float tiers) / mat.norms / ma
         "object (&m + &m, &m - &m, &m * &m; also after editing steps), op-pairs on 1x3, 3x1, 0x2, 2x0, 1x2, 3x3 (one per seed; all thorough), "
         "f64 * matrix with 0, -0.0, +-1, 2, 1/2 on empty / single-row / single-column / wide / tall shapes, f64 and Complex histories with scalars and "
         "entries from the special menus (axes, unit modulus, |re| = |im|) judged by a numpy list-of-rows reference, norms on tie / single-entry / "
-        "signed-zero patterns with norm_p at p = 1, 2, 1/2; in the exact tier every state dump is followed by the derived PartialEq of the matrix against a freshly "
+        "signed-zero patterns with norm_p at p = 1, 2, 1/2, the constructors new(r, c, x) / empty() for every shape 0..4 x 0..4, products / transposes / row and "
+        "column access / norms with a dimension in 9..20 (..33 thorough); in the exact tier every state dump is followed by the derived PartialEq of the matrix against a freshly "
         "built one; distinct = distinct executor line; non-trivial = non-empty matrix or an operation that must panic")
 TRUSTED = ["Coq 8.16.1 kernel + vm_compute", "Rust executor /verif/harness (Rat = i128 rationals)", "python driver: generators, list-of-rows reference model, stream comparators",
            "hand-written Gallina model coq/Model/{Matrix,MatOps,MatNorms}.v tied to src/matrix/*.rs by differential execution (Rat vs Qc exact; f64/Complex vs primitive floats)"]
@@ -394,6 +395,22 @@ def gen_special(rng, tier):
             for x in (rot(g, SCALAR_CLASSES + [Fraction(7, 3)], 2) if quick else SCALAR_CLASSES + [Fraction(7, 3)]):
                 cases.append(mk_ctor('rat', r, c, x))
             cases.append(mk_ctor('f64', r, c, g.choice([0.0, -0.0, 1.5, -2.0])))
+    # (b') dimensions above 8 (a blocked / strided loop shows its remainder handling from the second block on): products, transposes,
+    # row / column access, matrix * vector on shapes with a dimension in 9..20 (thorough: ..33)
+    g = rng.fork("big-shapes")
+    dims = [9, 12, 16, 17, 20] if quick else [9, 12, 16, 17, 20, 24, 32, 33]
+    for t in range(6 if quick else 30):
+        r, k, c = g.choice(dims), g.choice(dims + [1, 2]), g.choice(dims + [1, 3])
+        cases.append(mk('rat', rmat(g, 'rat', r, k), [("mul", rmat(g, 'rat', k, c))], "big-shapes"))
+    for t in range(3 if quick else 12):
+        r, c = g.choice(dims), g.choice(dims)
+        if t % 3 == 0: c = r
+        m0 = rmat(g, 'rat', r, c)
+        ops = [("transpose",), ("multiply", rvec(g, 'rat', c)), ("get_col", c - 1), ("get_row", r - 1), ("set_col", c - 1, rvec(g, 'rat', r)),
+               ("swap_rows", 0, r - 1), ("transpose_in_place",), ("fill_band", g.range(-2, 2), val(g, 'rat')), ("delete_row", c // 2),
+               ("resize", c + 1, r - 1), ("neg",), ("scale", Fraction(3, 2)), ("add_assign_s", Fraction(1)), ("fill_diag", Fraction(7))]
+        cases.append(mk('rat', m0, ops, "big-shapes"))
+        cases.append(mk_norms((r, c, [norm_val(g) for _ in range(r * c)]), "big-shapes-norms"))
     # (v) every operation with a scalar argument x the value classes 0, 1, -1, 2, 1/2 x every shape 0..3 x 0..3 (distinct non-zero
     # entries, so that a fast path returning the wrong shape, the operand itself or a stale buffer shows)
     g = rng.fork("scalar-classes")
